@@ -168,6 +168,25 @@ pub fn gen_cases(mode: &str, tier: &str, seed: u64, out: &str) {
                 }
             }
         }
+        // many cheap low-symmetry cases: triclinic and monoclinic settings in strongly skewed descriptions
+        "lowsym" => {
+            let n = if thorough { 1500 } else { 220 };
+            for k in 0..n {
+                let h = if k % 3 == 0 { 2 } else if k % 3 == 1 { rng.range(1, 107) as i32 } else { rng.range(1, 2) as i32 };
+                let base = if k % 2 == 0 { crystal_special(h, &mut rng, 0.2) } else { crystal(h, &mut rng, 2) };
+                let sp = *rng.pick(&symprecs);
+                let at = if rng.chance(0.7) { AngleTolerance::Default } else { AngleTolerance::Radian(rng.uniform(1e-3, 2e-2)) };
+                let sup = if rng.chance(0.3) {
+                    let idx = rng.range(2, 5) as i32;
+                    Some(*rng.pick(&hnfs_of_index(idx)))
+                } else {
+                    None
+                };
+                let lvl = 1 + (rng.range(0, 1) as u32);
+                let c = redescribe(&base, &mut rng, lvl, sup);
+                emit(&mut w, format!("h{}k{}-low", h, k), &c, sp, at, settings[k % 2]);
+            }
+        }
         // supercells: every HNF of index 2..4 (quick: on a sample of settings), random up to 12
         "super" => {
             let nsettings = if thorough { 530 } else { 90 };
@@ -205,7 +224,7 @@ pub fn gen_cases(mode: &str, tier: &str, seed: u64, out: &str) {
             let n = if thorough { 530 } else { 130 };
             for k in 0..n {
                 let h = if thorough { k + 1 } else { rng.range(1, 530) as i32 };
-                let base = crystal(h, &mut rng, 2);
+                let base = if k % 2 == 0 { crystal_special(h, &mut rng, 0.2) } else { crystal(h, &mut rng, 2) };
                 let sp = *rng.pick(&[1e-5, 1e-4, 1e-3, 1e-2]);
                 let at = if rng.chance(0.6) { AngleTolerance::Default } else { AngleTolerance::Radian(rng.uniform(5e-3, 2e-2)) };
                 let lvl = rng.range(0, 2) as u32;
